@@ -29,7 +29,7 @@ pub static DEF: PropDef = PropDef {
         "while some task is between take_hook and set_hook the process hook is std's default by construction: no sentinel / message-content expectation is attached to panics fired in that window",
         "PANIC_CATCHER_HOOK_SET is reset between runs through the guarded test-only hook",
     ],
-    required_probes: &["c19.panic_caught", "c19.panic_escaped", "c19.nested_noncatching_outer", "c19.install", "c19.query", "c19.epilogue", "c19.install_lock_contended", "c19.transparent", "c19.static_payload", "c19.nonstring_payload", "c19.preempted_inside_previous_hook"],
+    required_probes: &["c19.panic_caught", "c19.panic_escaped", "c19.nested_noncatching_outer", "c19.install", "c19.query", "c19.epilogue", "c19.install_lock_contended", "c19.transparent", "c19.static_payload", "c19.nonstring_payload", "c19.preempted_inside_previous_hook", "c19.catch_during_unwind"],
     extra: None,
 };
 
@@ -119,6 +119,9 @@ enum Op {
     SetFallbackContinue,
     QueryBacktrace,
     Catch(Vec<Op>),
+    /// like Catch, but the closure owns a value whose Drop enters (and leaves) catch_panic: if the body panics, that
+    /// happens during unwinding, between the panic and the moment the outer catch_panic reads the recorded text
+    CatchOwningGuard(Vec<Op>),
     Panic,
     /// panic with a `&'static str` payload (the hook reads `&str` and `String` payloads through different downcasts)
     PanicStatic,
@@ -136,6 +139,7 @@ fn render(ops: &[Op]) -> String {
             Op::SetFallbackContinue => "fallback=continue".to_string(),
             Op::QueryBacktrace => "query".to_string(),
             Op::Catch(b) => format!("catch{{{}}}", render(b)),
+            Op::CatchOwningGuard(b) => format!("catch+dropguard{{{}}}", render(b)),
             Op::Panic => "panic".to_string(),
             Op::PanicStatic => "panic-static".to_string(),
             Op::PanicAny => "panic-any".to_string(),
@@ -167,10 +171,25 @@ fn gen_ops(budget: &mut usize, depth: usize) -> Vec<Op> {
             3 => out.push(Op::InstallHook),
             4 => out.push(Op::SetFallbackContinue),
             5 => out.push(Op::QueryBacktrace),
-            _ => out.push(Op::Catch(gen_ops(budget, depth + 1))),
+            _ => {
+                let body = gen_ops(budget, depth + 1);
+                out.push(if chance(1, 5, "prog.dropguard") { Op::CatchOwningGuard(body) } else { Op::Catch(body) });
+            }
         }
     }
     out
+}
+
+/// Dropped when the owning closure returns or unwinds: enters and leaves a (successful) catch_panic.
+struct CatchInDrop;
+
+impl Drop for CatchInDrop {
+    fn drop(&mut self) {
+        if std::thread::panicking() {
+            kernel::count("c19.catch_during_unwind");
+        }
+        let _ = catch_panic(|| 7u8);
+    }
 }
 
 #[derive(Clone, Debug, PartialEq)]
@@ -257,22 +276,28 @@ fn exec_ops(ops: &[Op], m: &mut TaskModel) {
                 let bt = panic_catcher_get_backtrace();
                 kernel::count("c19.query");
                 crate::tr!("t{}: query backtrace -> {:?} (model {:?})", m.task, bt.as_ref().map(|s| s.lines().next().unwrap_or("").to_string()), m.last);
+                // The statement does not say what get_backtrace returns, only that nothing leaks between threads: so
+                // None is always acceptable, and a text must be about one of THIS thread's own panics.
                 match (&m.last, bt) {
-                    (Last::None, None) | (Last::Unknown, _) => {}
+                    (_, None) | (Last::Unknown, _) => {}
                     (Last::None, Some(t)) => kernel::fail(v(
                         "backtrace-leaked",
                         "",
                         format!("task {} never recorded a panic but get_backtrace says {:?}", m.task, t.lines().next()),
                     )),
-                    (Last::Msg(msg), Some(t)) if t.contains(msg.as_str()) => {}
-                    (Last::Msg(msg), other) => kernel::fail(v(
-                        "backtrace-wrong",
-                        "",
-                        format!("task {}: last caught panic was {msg:?}, get_backtrace says {:?}", m.task, other.map(|t| t.lines().next().unwrap_or("").to_string())),
-                    )),
+                    (Last::Msg(_), Some(t)) => {
+                        if !m.msgs.iter().any(|own| t.contains(own.as_str())) {
+                            kernel::fail(v(
+                                "backtrace-leaked",
+                                "foreign-text",
+                                format!("task {}: get_backtrace returned a text that is about none of this thread's panics: {:?}", m.task, t.lines().next()),
+                            ));
+                        }
+                    }
                 }
             }
-            Op::Catch(body) => {
+            Op::Catch(body) | Op::CatchOwningGuard(body) => {
+                let with_guard = matches!(op, Op::CatchOwningGuard(_));
                 let catching = m.enabled;
                 let idx = m.frames.len();
                 m.frames.push(catching);
@@ -283,6 +308,7 @@ fn exec_ops(ops: &[Op], m: &mut TaskModel) {
                 let r = {
                     let mm = &mut *m;
                     catch_panic(AssertUnwindSafe(move || {
+                        let _guard = with_guard.then_some(CatchInDrop);
                         exec_ops(body, mm);
                         42u32
                     }))
